@@ -342,7 +342,7 @@ Definition evict_close (id : nat) (f : flow) : list lout :=
 
 (** what a forwarding site pushes before it re-arms or closes *)
 Inductive pre_ok (inp : input) (id : nat) (f f' : flow) : list lout -> Prop :=
-| pre_nil : pre_ok inp id f f' []
+| pre_nil : f_backend_addr f' = f_backend_addr f -> pre_ok inp id f f' []
 | pre_forward src p b hdr :
     inp = IClient src p -> f_backend_addr f = Some b -> f_backend_addr f' = Some b ->
     hdr = [] \/ hdr = dgram_header (f_client f) b ->
@@ -523,7 +523,7 @@ Proof.
     + repeat split.
     + unfold phase_ok. cbn. rewrite ?Ep. split; [exact Hb | discriminate].
     + rewrite <- (inv_caps _ HI _ _ Hg). apply teardown_due_ext; reflexivity.
-    + constructor.
+    + constructor. reflexivity.
     + intros p0 Hp0. right. exists src. cbn in Hp0. inversion Hp0. reflexivity.
   - (* Established: forward *)
     destruct Hp as (Hb & Hpend).
